@@ -346,7 +346,17 @@ class Canon:
             return "(" + op.join(sorted(s(x) for x in t[1])) + ")"
         if k == "cmp":
             op = f" {t[1]} " if t[1] in ("in", "notin", "is", "isnot") else t[1]
-            return f"{s(t[2])}{op}{s(t[3])}"
+            sa, sb = s(t[2]), s(t[3])
+            # one spelling per comparison: symmetric operators put the constant operand last
+            # (otherwise the smaller spelling first); a > b is b < a
+            if t[1] in ("==", "!=", "is", "isnot"):
+                ka = (t[2][0] == "const", sa)
+                kb = (t[3][0] == "const", sb)
+                if kb < ka:
+                    sa, sb = sb, sa
+            elif t[1] in (">", ">="):
+                sa, sb, op = sb, sa, {">": "<", ">=": "<="}[t[1]]
+            return f"{sa}{op}{sb}"
         if k == "bin":
             return f"({s(t[2])}{t[1]}{s(t[3])})"
         if k == "phi":
